@@ -29,11 +29,13 @@ for d in sorted(os.listdir(root)):
         res = {}
         for p in dict.fromkeys(props):
             t0 = time.time()
-            r = subprocess.run([os.path.join(VERIF, 'check'), p, '--tier', a.tier, '--no-evidence'], cwd=VERIF, capture_output=True, text=True,
+            r = subprocess.run([os.path.join(VERIF, 'check'), p, '--tier', meta.get('tier', a.tier), '--no-evidence'], cwd=VERIF, capture_output=True, text=True,
                                env=dict(os.environ, VERIF_REPO=wt))
             why = [''.join(ch if 32 <= ord(ch) < 127 else '?' for ch in l.strip()) for l in r.stdout.splitlines() if 'failing test' in l]
             res[p] = {'exit': r.returncode, 'seconds': round(time.time() - t0, 1), 'why': (why[0][:300] if why else '')}
             status = 'detected' if r.returncode == 1 else ('MISSED' if r.returncode == 0 else 'inconclusive(exit %d)' % r.returncode)
+            if r.returncode == 1 and meta.get('tier', a.tier) != a.tier:
+                status = 'detected (%s tier)' % meta['tier']
             if meta.get('out_of_domain') and r.returncode == 0:
                 status = 'silent, as it should be (outside the quantifier)'
             if meta.get('neutralised_by_fix') and r.returncode == 0:
